@@ -1,6 +1,7 @@
 package main
 
 import (
+	"fmt"
 	"math/big"
 	"sort"
 
@@ -31,6 +32,30 @@ func init() {
 	RegOp("agg.median", aggOp(llo.MedianAggregator))
 	RegOp("agg.quote", aggOp(llo.QuoteAggregator))
 	RegOp("agg.mode", aggOp(llo.ModeAggregator))
+	// agg.seq: several aggregators one after the other on the SAME slice (outcome() hands streamObservations[sid]
+	// to every aggregator configured for the stream): {"f","values","aggs":["median","mode",…]} → list of results
+	RegOp("agg.seq", func(in J) any {
+		in = normalise(in).(map[string]any)
+		var vals []llo.StreamValue
+		for _, v := range jArr(in["values"]) {
+			vals = append(vals, jSV(v))
+		}
+		fs := map[string]func([]llo.StreamValue, int) (llo.StreamValue, error){"median": llo.MedianAggregator, "quote": llo.QuoteAggregator, "mode": llo.ModeAggregator}
+		var outs []any
+		for _, a := range jArr(in["aggs"]) {
+			outs = append(outs, safely(func() any {
+				r, err := fs[jStr(a)](vals, jInt(in["f"]))
+				if err != nil {
+					return resErr(errClass(err,
+						[2]string{"not enough", "not-enough"},
+						[2]string{"unsupported StreamValue type", "unsupported-type"},
+						[2]string{"failed to unmarshal", "unmarshal"}), err)
+				}
+				return resOK(svJ(r))
+			}))
+		}
+		return resOK(outs)
+	})
 	RegOp("sv.binary", func(in J) any {
 		in = normalise(in).(map[string]any)
 		b, err := jSV(in["v"]).MarshalBinary()
@@ -404,6 +429,30 @@ func genC15(g *G) {
 			g.Emit(J{"op": "agg.mode", "f": f, "values": vals}, "boundary")
 		}
 	}
+	// the same list handed to several aggregators in a row (an aggregator must not modify its input)
+	for i := 0; i < g.N(300, 4000); i++ {
+		f := 1 + g.R.Intn(3)
+		var vals []any
+		// a minority-typed or nil entry in front, then values of the majority type with one value f times
+		switch g.R.Intn(3) {
+		case 0:
+			vals = append(vals, nil)
+		case 1:
+			vals = append(vals, svJ(rndQuote(g, true)))
+		}
+		rep := svJ(llo.ToDecimal(decimal.New(int64(g.R.Intn(5)), 0)))
+		for k := 0; k < f; k++ {
+			vals = append(vals, rep)
+		}
+		for k := 1 + g.R.Intn(4); k > 0; k-- {
+			vals = append(vals, svJ(llo.ToDecimal(decimal.New(int64(10+g.R.Intn(50)), 0))))
+		}
+		if g.R.Intn(2) == 0 {
+			vals = append(vals, rep) // now f+1 of them: the positive case
+		}
+		aggs := [][]any{{"median", "mode"}, {"mode", "mode"}, {"mode", "median"}, {"quote", "mode"}, {"mode", "quote", "median"}}[g.R.Intn(5)]
+		g.Emit(J{"op": "agg.seq", "f": f, "values": vals, "aggs": aggs}, "seq")
+	}
 	// history independence: a call that fails half-way (a value that cannot be serialized, met after some
 	// values were tallied) must leave nothing behind for the next call, which has only f supporters
 	for f := 1; f <= 3; f++ {
@@ -449,6 +498,25 @@ func permute(a []any, f func([]any)) {
 // monC15: result occurs >= f+1 times (byte-identical), is of the most common type, and the same
 // result is obtained for a sorted copy of the list (order independence, implementation vs itself).
 func monC15(op J, res any) (viol []Violation, nontrivial bool) {
+	if jStr(op["op"]) == "agg.seq" {
+		outs := jArr(jObj(res)["ok"])
+		for i, a := range jArr(op["aggs"]) {
+			if jStr(a) != "mode" || i >= len(outs) {
+				continue
+			}
+			vs, nt := monC15(J{"op": "agg.mode", "f": op["f"], "values": op["values"]}, outs[i])
+			nontrivial = nontrivial || nt
+			for _, v := range vs {
+				if v.Sig == "C15/order-dependent" {
+					continue // the re-evaluation inside the single-call monitor does not apply to a sequence
+				}
+				v.Op, v.Res = op, res
+				v.Desc = fmt.Sprintf("aggregator %d of a sequence on one observation list: %s", i, v.Desc)
+				viol = append(viol, v)
+			}
+		}
+		return viol, nontrivial
+	}
 	if jStr(op["op"]) != "agg.mode" {
 		return
 	}
